@@ -23,6 +23,8 @@ func main() {
 		os.Exit(govc.RunProperty(os.Args[2:]))
 	case "list":
 		cmdList(os.Args[2:])
+	case "sweep":
+		cmdSweep(os.Args[2:])
 	default:
 		fmt.Fprintln(os.Stderr, "unknown command")
 		os.Exit(2)
@@ -81,5 +83,57 @@ func cmdFunc(args []string) {
 				}
 			}
 		}
+	}
+}
+
+func cmdSweep(args []string) {
+	v, err := govc.Load("/repo", "./...")
+	if err != nil {
+		fmt.Fprintln(os.Stderr, err)
+		os.Exit(2)
+	}
+	dir, _ := os.MkdirTemp("", "govc")
+	defer os.RemoveAll(dir)
+	so := &govc.SolveOpts{Dir: dir, Timeout: 5 * time.Second, FirstTry: 2 * time.Second, Workers: 4, WantModel: false}
+	var keys []string
+	for k := range v.AllFuncKeys() {
+		if len(args) == 0 || strings.Contains(k, args[0]) {
+			keys = append(keys, k)
+		}
+	}
+	sort.Strings(keys)
+	type out struct {
+		key string
+		txt string
+	}
+	res := make([]string, len(keys))
+	sem := make(chan struct{}, 6)
+	done := make(chan int, len(keys))
+	for i, k := range keys {
+		i, k := i, k
+		sem <- struct{}{}
+		go func() {
+			defer func() { <-sem; done <- i }()
+			defer func() {
+				if r := recover(); r != nil {
+					res[i] = fmt.Sprintf("%s: PANIC %v", k, r)
+				}
+			}()
+			r := v.VerifyFunc(v.FuncByKey(k), govc.UnitOpts{UseCands: true, WantTerm: len(args) > 1 && args[1] == "term"}, so)
+			var sb strings.Builder
+			sb.WriteString(r.Summary())
+			for _, o := range r.Obligations {
+				if !o.Discharged() {
+					fmt.Fprintf(&sb, "\n    %s %s [%s] %s:%d", o.Status(), o.Name, o.Desc, o.Pos.Filename, o.Pos.Line)
+				}
+			}
+			res[i] = sb.String()
+		}()
+	}
+	for range keys {
+		<-done
+	}
+	for _, r := range res {
+		fmt.Println(r)
 	}
 }
